@@ -47,7 +47,7 @@ def ids_of(gene, i):
     d = dict(
         gene_id=f"GID{i}" if has_gid else None,
         gene_symbol=f"sym{i}" if has_sym else None,
-        locus_tag=LOCUS[i] if has_tag else None,
+        locus_tag=gene.get("lt", LOCUS[i]) if has_tag else None,  # "lt": explicit tag (C18: tags that differ only in case)
         transcript_id=f"TX{i}",
         transcript_symbol=f"sym{i}" if has_sym else None,
         protein_id=f"PROT{i}" if (rich and coding) else None,
